@@ -317,7 +317,7 @@ def contracts(tier):
         yield ("StreamSerializer", "len5_max8", make_serializer(5, 8, "sync"))
         return
     # ---- 8-bit generator
-    lens = (1, 2, 3, 5, 8, 18) if quick else tuple(range(1, 10)) + (16, 17, 18, 31, 32, 33, 64, 130, 255, 256, 300)
+    lens = (1, 2, 3, 5, 8, 18) if quick else (1, 2, 3, 4, 7, 8, 9, 17, 33, 64, 255, 256, 300)
     for n in lens:
         for mlw in gen_mlws:
             if mlw == 8 and n > 255:
@@ -325,10 +325,12 @@ def contracts(tier):
             yield ("ConstantStreamGenerator", f"byte_len{n}_{'max%d' % mlw if mlw else 'nomax'}",
                    make_generator(_data(n), "byte", "little", mlw, "usb" if n % 2 else "sync"))
     # ---- 32-bit generator (SuperSpeedStreamInterface: 4 valid bits)
-    wlens = (1, 3, 4, 6, 11, 18) if quick else tuple(range(1, 14)) + (16, 18, 19, 64, 65, 66, 67, 130)
+    wlens = (1, 3, 4, 6, 11, 18) if quick else (1, 2, 3, 4, 5, 7, 8, 9, 13, 16, 19, 66, 130)
     for n in wlens:
         for endian in ("little", "big"):
             for mlw in gen_mlws2:
+                if endian == "big" and mlw and n not in (7, 13):
+                    continue        # big endian + max_length is a known finding: two representative lengths are enough
                 yield ("ConstantStreamGenerator", f"wide_{endian}_len{n}_{'max%d' % mlw if mlw else 'nomax'}",
                        make_generator(_data(n, 2), "wide", endian, mlw, "ss"))
     # ---- 16-bit payload, single valid bit, bytes constant
